@@ -367,9 +367,10 @@ Fixpoint strict18 (v : tval) : bool :=
 
 Definition pair_eqb (a b : Z * Z) : bool := (fst a =? fst b) && (snd a =? snd b).
 
-(* the verdict, given the model's skip result [sk] (rest of the input), the model's decoding [dec] of the same bytes (delayed), the input length,
+(* the verdict, given the model's skip result [sk] (rest of the input), the model's decoding [dec] of the same bytes (delayed), the model's
+   skip without the depth limit [deep] (delayed), the input length,
    SkipGo's (err, consumed) and the (err, consumed) of the SkipNative flavours that were run *)
-Definition judge_1802 (sk : option (list Z)) (dec : unit -> option (tval * list Z)) (len eg ng : Z) (nats : list (Z * Z)) : verdict :=
+Definition judge_1802 (sk : option (list Z)) (dec : unit -> option (tval * list Z)) (deep : unit -> option (list Z)) (len eg ng : Z) (nats : list (Z * Z)) : verdict :=
   if negb (all_same pair_eqb nats) then VBad 4 [] else
   match sk with
   | Some r =>
@@ -385,7 +386,13 @@ Definition judge_1802 (sk : option (list Z)) (dec : unit -> option (tval * list 
     (if forallb (fun x => fst x =? 1) nats then VOk
      (* finding 1804: SkipNative returns a nil error (cursor unmoved) when the native skipper fails *)
      else if forallb (fun x => (fst x =? 1) || ((fst x =? 0) && (snd x =? 0))) nats then VKnown 1804
-     else VBad 5 [FZ 1])
+     else
+       (* finding 1807: the value is well-formed but nested deeper than SkipGo's limit (1023): the native skipper's limit is different
+          (1024 frames, and the last element of a container reuses its frame) — it skips the value, by exactly its length *)
+       match deep tt with
+       | Some r => if forallb (fun x => (fst x =? 0) && (snd x =? len - zlen r)) nats then VKnown 1807 else VBad 5 [FZ 1]
+       | None => VBad 5 [FZ 1]
+       end)
   end.
 
 (* 1802. fields: type, bytes, mask, SkipGo err, SkipGo consumed, then (err, consumed) of SkipNative under avx2, avx, sse.
@@ -395,7 +402,7 @@ Definition judge_1802 (sk : option (list Z)) (dec : unit -> option (tval * list 
 Definition check_1802 (fs : list field) : verdict :=
   match fs with
   | [FZ t; FB bs; FZ mask; FZ eg; FZ ng; FZ e0; FZ n0; FZ e1; FZ n1; FZ e2; FZ n2] =>
-    judge_1802 (skip_go t bs) (fun _ => decode (S (length bs)) t bs) (zlen bs) eg ng (sel mask [(e0, n0); (e1, n1); (e2, n2)])
+    judge_1802 (skip_go t bs) (fun _ => decode (S (length bs)) t bs) (fun _ => skip (S (length bs)) t bs) (zlen bs) eg ng (sel mask [(e0, n0); (e1, n1); (e2, n2)])
   | _ => VBad 99 []
   end.
 
